@@ -334,7 +334,7 @@ func Run(r *vk.Run) {
 	var cases []Case
 	id := 0
 	add := func(c Case) { c.ID = id; id++; cases = append(cases, c) }
-	sweeps := r.N(2, 12)
+	sweeps := r.N(3, 40)
 	for k := 0; k < sweeps; k++ {
 		for _, b := range []int{10, 25} {
 			var offs []int
@@ -344,7 +344,7 @@ func Run(r *vk.Run) {
 			add(Case{Kind: "inflight", BlockMs: b, Ratio: 0, Offsets: offs})
 		}
 	}
-	for k := 0; k < r.N(1, 6); k++ {
+	for k := 0; k < r.N(1, 12); k++ {
 		for _, b := range []int{20, 50} {
 			for _, ratio := range []int{2, 4, 20} {
 				for _, pp := range []int{0, 50, 200} {
@@ -362,10 +362,10 @@ func Run(r *vk.Run) {
 			}
 		}
 	}
-	for k := 0; k < r.N(2, 8); k++ {
+	for k := 0; k < r.N(2, 24); k++ {
 		add(Case{Kind: "stream", BlockMs: []int{25, 50}[k%2], Ratio: 40, Offsets: []int{20 + rng.Intn(50)}, ProdPct: []int{0, 50}[k%2]})
 	}
-	for k := 0; k < r.N(1, 4); k++ {
+	for k := 0; k < r.N(1, 10); k++ {
 		for _, ratio := range []int{1, 2, 4} {
 			add(Case{Kind: "idle", BlockMs: 10, Ratio: ratio, ProdPct: []int{0, 50}[k%2]})
 		}
